@@ -37,6 +37,7 @@ const (
 	c15EtAny
 	c15EtError
 	c15EtPtr
+	c15EtNamed // chan c15Ints: a named slice type; an unnamed []int value is assignable to it, not identical
 )
 
 // value kinds of publishes
@@ -46,10 +47,14 @@ const (
 	c15VkPtr
 	c15VkErr
 	c15VkNil
+	c15VkSlice // an unnamed []int
 )
 
-var c15EtNames = []string{"chan int", "chan string", "chan any", "chan error", "chan *T"}
-var c15VkNames = []string{"int", "string", "*T", "error", "nil"}
+// c15Ints is a named type whose underlying type is []int.
+type c15Ints []int
+
+var c15EtNames = []string{"chan int", "chan string", "chan any", "chan error", "chan *T", "chan NamedInts"}
+var c15VkNames = []string{"int", "string", "*T", "error", "nil", "[]int"}
 
 // c15Assignable is the oracle's own table (Go assignability of the published value to the element
 // type); an untyped nil is acceptable to the nilable element types.
@@ -64,7 +69,9 @@ func c15Assignable(vk, et int) bool {
 	case c15VkErr:
 		return et == c15EtError || et == c15EtAny
 	case c15VkNil:
-		return et == c15EtAny || et == c15EtError || et == c15EtPtr
+		return et == c15EtAny || et == c15EtError || et == c15EtPtr || et == c15EtNamed
+	case c15VkSlice:
+		return et == c15EtNamed || et == c15EtAny
 	}
 	return false
 }
@@ -79,6 +86,8 @@ func c15Value(vk, uid int) any {
 		return &c15T{uid}
 	case c15VkErr:
 		return c15Err{uid}
+	case c15VkSlice:
+		return []int{uid}
 	}
 	return nil
 }
@@ -103,6 +112,20 @@ func c15Decode(v any) int {
 		return x.ID
 	case c15Err:
 		return x.ID
+	case []int:
+		if x == nil {
+			return 0
+		}
+		if len(x) == 1 {
+			return x[0]
+		}
+	case c15Ints:
+		if x == nil {
+			return 0
+		}
+		if len(x) == 1 {
+			return x[0]
+		}
 	}
 	return -1
 }
@@ -192,6 +215,25 @@ func c15MkChan(et, capacity int) *c15Chan {
 		}
 	case c15EtError:
 		ch := make(chan error, capacity)
+		c.target = ch
+		c.recv = func(stop <-chan struct{}) (v any, ok bool) {
+			select {
+			case x := <-ch:
+				v, ok = x, true
+			case <-stop:
+			}
+			return
+		}
+		c.poll = func() (v any, ok bool) {
+			select {
+			case x := <-ch:
+				v, ok = x, true
+			default:
+			}
+			return
+		}
+	case c15EtNamed:
+		ch := make(chan c15Ints, capacity)
 		c.target = ch
 		c.recv = func(stop <-chan struct{}) (v any, ok bool) {
 			select {
@@ -306,7 +348,7 @@ func c15Notifier() {
 			}
 		}
 		if s.ch == nil {
-			c := c15MkChan(simrt.Draw(5), []int{0, 0, 0, 1, 2}[simrt.Draw(5)])
+			c := c15MkChan(simrt.Draw(6), []int{0, 0, 0, 1, 2}[simrt.Draw(5)])
 			c.id = len(chans)
 			switch x := simrt.Draw(10); {
 			case x < 5:
@@ -358,7 +400,7 @@ func c15Notifier() {
 	var pubs []*c15Pub
 	for t := range pubTasks {
 		for k := simrt.DrawRange(1, 4); k > 0; k-- {
-			p := &c15Pub{uid: 1000*(t+1) + k, key: simrt.Draw(nKeys), vk: simrt.Draw(4), p: drawPause(), cancelPause: drawPause()}
+			p := &c15Pub{uid: 1000*(t+1) + k, key: simrt.Draw(nKeys), vk: []int{c15VkInt, c15VkString, c15VkPtr, c15VkErr, c15VkSlice}[simrt.Draw(5)], p: drawPause(), cancelPause: drawPause()}
 			if nilLeft > 0 && simrt.Chance(1, 3) {
 				nilLeft--
 				p.vk = c15VkNil
